@@ -6,6 +6,7 @@ what pydantic / pandas / xlsxwriter / matplotlib / z3's printer do with correct 
 from __future__ import annotations
 
 import ast
+import re
 
 from sa import project as P
 from sa.decide import canon, lin
@@ -839,3 +840,52 @@ def r_ticks_on_the_gantt_axes(ctx):
 
 
 C17_RULES.append(r_ticks_on_the_gantt_axes)
+
+
+def _six_digits(fv):
+    """the formatted value always renders as six characters: a zero-filled width of 6 (format spec, zfill, rjust/ljust with a fill
+    digit), or six characters cut out of a hexdigest (always 32+ hex digits)"""
+    if fv.format_spec is not None:
+        spec = "".join(str(c.value) for c in fv.format_spec.values if isinstance(c, ast.Constant))
+        if re.fullmatch(r"(0[<>]|0)6[xXdb]?", spec):
+            return True
+    v = fv.value
+    if isinstance(v, ast.Call) and isinstance(v.func, ast.Attribute) and v.args and isinstance(v.args[0], ast.Constant) and v.args[0].value == 6:
+        if v.func.attr == "zfill" or (v.func.attr in ("rjust", "ljust") and len(v.args) == 2 and isinstance(v.args[1], ast.Constant)
+                                      and str(v.args[1].value) in "0123456789abcdefABCDEF" and len(str(v.args[1].value)) == 1):
+            return True
+    if isinstance(v, ast.Subscript) and isinstance(v.slice, ast.Slice) and v.slice.step is None:
+        src = v.value
+        if isinstance(src, ast.Call) and isinstance(src.func, ast.Attribute) and src.func.attr == "hexdigest":
+            lo = v.slice.lower.value if isinstance(v.slice.lower, ast.Constant) else (0 if v.slice.lower is None else None)
+            hi = v.slice.upper.value if isinstance(v.slice.upper, ast.Constant) else None
+            return isinstance(lo, int) and isinstance(hi, int) and lo >= 0 and hi - lo == 6 and hi <= 32
+    return False
+
+
+def r_excel_color(ctx):
+    """'exporting to an Excel workbook succeeds for every valid solution': with colours on, a cell colour is derived from the text
+    of the cell.  xlsxwriter accepts `#RRGGBB` only (trusted library fact): the colour string must have six hex digits for EVERY
+    text - a slice of a decimal rendering has fewer for small numbers (crc32('') is 0: the colour of a task without resource was
+    '#').  Decided on the helper: what follows '#' is formatted to a fixed width of 6."""
+    fn = ctx.project.function("excel_io", "_get_color_from_string")
+    rets = [n for n in ast.walk(fn) if isinstance(n, ast.Return) and isinstance(n.value, ast.JoinedStr)]
+    n = 0
+    for r in rets:
+        parts = r.value.values
+        if not (parts and isinstance(parts[0], ast.Constant) and str(parts[0].value).startswith("#")):
+            continue
+        n += 1
+        fv = [p for p in parts if isinstance(p, ast.FormattedValue)]
+        fixed = len(fv) == 1 and _six_digits(fv[0])
+        if fixed:
+            ctx.ok("R-EXCEL-COLOR", "excel_io._get_color_from_string: '#' + a value formatted to 6 digits")
+        else:
+            ctx.violation("R-EXCEL-COLOR", "excel_io._get_color_from_string", "colour string of variable length",
+                          f"`{ast.unparse(r.value)[:80]}` takes a slice of a decimal string: for a small hash it has fewer than six digits "
+                          f"(the text '' - a task without resource - gives '#') and xlsxwriter raises 'Invalid color value'",
+                          f"processscheduler/excel_io.py:{r.lineno}")
+    ctx.floor("R-EXCEL-COLOR", "colour strings built from a hash", n, 1)
+
+
+C16_RULES.append(r_excel_color)
